@@ -335,7 +335,8 @@ def wrt_columns(case, lay):
         for n, idx in case['wrt']:
             sel = list(range(lay.sizes[n])) if idx is None else idx
             for loc, k in enumerate(sel):
-                cols.append({'var': n, 'k': k, 'loc': loc, 'opts': case['approx']})
+                # a negative entry counts from the end of the variable
+                cols.append({'var': n, 'k': k % lay.sizes[n], 'loc': loc, 'opts': case['approx']})
     return cols
 
 
@@ -349,7 +350,7 @@ def of_rows(case, lay):
         for n, idx in case['of']:
             sel = list(range(lay.sizes[n])) if idx is None else idx
             for k in sel:
-                rows.append((n, k))
+                rows.append((n, k % lay.sizes[n]))
     return rows
 
 
@@ -688,16 +689,24 @@ def build(case, colored):
             if o.get('step_calc') is not None:
                 kw['step_calc'] = o['step_calc']
         parent.approx_totals(**kw)
-        if colored:
+        if colored and case.get('color_mode') == 'driver':
+            # the documented way: a total coloring declared on the driver, computed by run_driver
+            p.driver = om.ScipyOptimizeDriver(optimizer='SLSQP', maxiter=1, disp=False)
+            p.driver.declare_coloring(show_summary=False, show_sparsity=False)
+        elif colored:
             ckw = {k: v for k, v in kw.items() if k != 'step_calc'}
             parent.declare_coloring(wrt='*', show_summary=False, show_sparsity=False, **ckw)
     if kind in ('totals', 'semi'):
         for n, idx in case['wrt']:
             p.model.add_design_var(n, indices=idx)
-        for n, idx in case['of']:
-            p.model.add_constraint(n, indices=idx, lower=-1e30)
+        for io, (n, idx) in enumerate(case['of']):
+            if io == 0 and case.get('objective'):
+                p.model.add_objective(n, index=idx[0])       # a scalar entry, first row
+            else:
+                p.model.add_constraint(n, indices=idx, lower=-1e30)
     p.setup(force_alloc_complex=(method == 'cs' or
-                                 (case.get('check_opts') or {}).get('method') == 'cs'))
+                                 (case.get('check_opts') or {}).get('method') == 'cs'),
+            **({'mode': 'fwd'} if case.get('objective') else {}))
     return p, comps, parent
 
 
@@ -743,6 +752,14 @@ def observe(case, lay, colored):
     with warnings.catch_warnings():
         warnings.simplefilter('ignore')
         p.run_model()
+        if colored and case.get('color_mode') == 'driver':
+            import contextlib
+            import io
+            with contextlib.redirect_stdout(io.StringIO()):
+                p.run_driver()             # computes the dynamic total coloring
+            for n, vals in case['ivc']:
+                p.set_val(n, np.array([float(unrat(v)) for v in vals]))
+            p.run_model()
         if case['kind'] in ('partials', 'bad'):
             of = [n for n, sz in lay.comps[0]['outs']]
             wrt = [n for n, sz in lay.comps[0]['ins']]
@@ -794,6 +811,10 @@ def observe(case, lay, colored):
             try:
                 sysc = comps[0] if case['kind'] in ('partials', 'bad') else parent
                 coloring = sysc._coloring_info.coloring
+                if coloring is None and case.get('color_mode') == 'driver':
+                    # (run_model after run_driver clears the driver's handle; the model keeps the
+                    # total coloring its approximations use)
+                    coloring = p.driver._coloring_info.coloring
                 if coloring is None:
                     obs['coloring'] = None
                 else:
@@ -1054,12 +1075,17 @@ class C12(Property):
 
     # -- generator ----------------------------------------------------------------------------------
     def cases(self, rng, tier):
-        n = 100 if tier == 'quick' else 7000
+        n = 90 if tier == 'quick' else 7000
         # targeted family first: a partial coloring limited to some inputs, the other inputs
         # approximated by the same method with different options, both declaration orders
         for i in range(14 if tier == 'quick' else 300):
             yield self.gen_partial_coloring(rng, color_first=(i % 2 == 0),
                                             method='cs' if i % 7 == 6 else 'fd')
+        # targeted family: approximated totals with design-variable / response indices (subsets,
+        # reordered, negative), with and without a total coloring declared on the driver
+        for i in range(12 if tier == 'quick' else 300):
+            yield self.gen_totals_indices(rng, method='cs' if i % 2 == 0 else 'fd',
+                                          driver_coloring=(i % 3 != 2))
         for i in range(n):
             r = rng.random()
             if r < 0.40:
@@ -1219,6 +1245,64 @@ class C12(Property):
                 comps[ci]['guard'] = [j, '0', 'du']
             case['calls'] = ['totals']
         return case
+
+    def gen_indices(self, rng, size, allow_none=True):
+        """indices of a design variable / response: a subset in random order, some entries
+        negative, no duplicates"""
+        if allow_none and rng.random() < 0.2:
+            return None
+        k = rng.randint(1, size)
+        idx = rng.sample(range(size), k)
+        if rng.random() < 0.5:
+            idx = [(i - size) if rng.random() < 0.5 else i for i in idx]
+        return idx
+
+    def gen_totals_indices(self, rng, method, driver_coloring):
+        """separable model: one elementwise nonlinear component per independent variable (so the
+        total jacobian is sparse and a total coloring pays), optionally a component mixing two of
+        them; `approx_totals` with the default options (a driver coloring replaces user-given FD
+        options by the coloring's own defaults, so only the defaults are comparable)."""
+        nv = rng.choice([2, 2, 3])
+        ivc = []
+        comps = []
+        for v in range(nv):
+            sz = rng.choice([3, 4, 5])
+            ivc.append(['x%d' % v, rats(gen_values(rng, sz, 'any'))])
+            polys = []
+            for i in range(sz):
+                mono = [[rat(rng.choice(COEFS)), [i] * rng.choice([2, 2, 3])]]
+                if rng.random() < 0.5:
+                    mono.append([rat(rng.choice(COEFS)), [i]])
+                if rng.random() < 0.3:
+                    mono.append([rat(rng.choice(COEFS)), []])
+                polys.append(mono)
+            comps.append({'name': 'c%d' % v, 'ins': [['x%d' % v, sz]], 'outs': [['y%d' % v, sz]],
+                          'polys': polys, 'guard': None})
+        if rng.random() < 0.4:
+            # an affine component downstream of two of the nonlinear ones
+            a, b = rng.sample(range(nv), 2)
+            sa, sb = len(ivc[a][1]), len(ivc[b][1])
+            nout = min(sa, sb)
+            polys = [[[rat(rng.choice(COEFS)), [i]], [rat(rng.choice(COEFS)), [sa + i]]]
+                     for i in range(nout)]
+            comps.append({'name': 'cm', 'ins': [['y%d' % a, sa], ['y%d' % b, sb]],
+                          'outs': [['w', nout]], 'polys': polys, 'guard': None})
+        wrt = []
+        for n, vals in ivc:
+            wrt.append([n, self.gen_indices(rng, len(vals))])
+        if all(i is None for _, i in wrt):
+            wrt[-1][1] = self.gen_indices(rng, len(ivc[-1][1]), allow_none=False)
+        outs = [c['outs'][0] for c in comps]
+        rng.shuffle(outs)
+        of = []
+        n0, s0 = outs[0]
+        of.append([n0, [rng.randrange(-s0, s0)]])          # the objective: one entry
+        for n, sz in outs[1:]:
+            of.append([n, self.gen_indices(rng, sz)])
+        return {'kind': 'totals', 'method': method, 'ivc': ivc, 'comps': comps, 'approx': {},
+                'wrt': wrt, 'of': of, 'objective': True, 'colored': bool(driver_coloring),
+                'color_mode': 'driver' if driver_coloring else None,
+                'calls': ['totals', 'totals']}
 
     def gen_partial_coloring(self, rng, color_first, method):
         """`declare_coloring(wrt=<some inputs>, ...)` + `declare_partials` with *different* FD
@@ -1521,6 +1605,15 @@ class C12(Property):
             b.append('check_partials:%s' % case['check_opts']['method'])
             if 'check_totals' in case['calls']:
                 b.append('check_totals:%s' % case['check_opts']['method'])
+        if case.get('objective'):
+            b.append('totals_indices:%s' % ('driver_coloring' if case.get('color_mode') == 'driver'
+                                            else 'uncolored'))
+            if any(i is not None and any(k < 0 for k in i) for _, i in case['wrt']):
+                b.append('wrt_negative_indices')
+            if any(i is not None and i != sorted(i) for _, i in case['wrt']):
+                b.append('wrt_reordered_indices')
+            if any(i is not None and any(k < 0 for k in i) for _, i in case['of']):
+                b.append('of_negative_indices')
         if case.get('color_wrt') is not None:
             b.append('partial_coloring:%s' % ('coloring_declared_first' if case.get('color_first')
                                               else 'coloring_declared_last'))
